@@ -3,6 +3,7 @@ mod c01;
 mod c04;
 mod c05;
 mod c11;
+mod c12;
 mod c17;
 mod c20;
 mod faults;
